@@ -69,6 +69,7 @@ def expected(a, b):
 class C17(vlib.PropertyCheck):
     id = 'C17'
     family = 'c17'
+    generators = ['gen_constants.py', 'gen_vercmp.py']
     harness = 'c17.c'
     nontrivial_rule = ('a case is one unordered pair {a,b} (compared in both orders, each call twice under different stack '
                        'paint); non-trivial when a != b and the model result is not a fault; distinct = distinct case lines')
